@@ -172,6 +172,19 @@ func build(s *spec, specs []*spec) []byte {
 		// the memory owner's grow function: lets a caller hold a memory base across a growing callee
 		growImp = int(m.ImportFunc(modName(s.memFrom), "grow1", nil, i32))
 	}
+	// the table.grow function of every module we import a function from: its table may or may not be ours
+	var tgrowOf []uint32
+	for _, j := range s.impFn {
+		tgrowOf = append(tgrowOf, m.ImportFunc(modName(j), "tgrow1", nil, i32))
+	}
+	tgrowImp, bumpImp := -1, -1
+	if s.tabFrom >= 0 {
+		tgrowImp = int(m.ImportFunc(modName(s.tabFrom), "tgrow1", nil, i32))
+	}
+	g0Twisted := s.twist == fmt.Sprintf("global-type-%d", gI32) || s.twist == fmt.Sprintf("global-mut-%d", gI32) || s.twist == fmt.Sprintf("global-nomodule-%d", gI32)
+	if s.gFrom[gI32] >= 0 && !g0Twisted {
+		bumpImp = int(m.ImportFunc(modName(s.gFrom[gI32]), "bump_g0", nil, nil))
+	}
 	nImpF := uint32(len(s.impFn))
 	gidx := map[int]uint32{}
 	effType := append([]wasmb.ValType(nil), gTypes...)
@@ -267,6 +280,23 @@ func build(s *spec, specs []*spec) []byte {
 		if effMut[k] {
 			m.AddFunc(vt, nil, nil, c().LocalGet(0).GlobalSet(gidx[k]).B, fmt.Sprintf("wr_g%d", k))
 		}
+	}
+	// cross-instance nesting: a callee in another instance grows the shared table / bumps the shared
+	// global while the caller's activation is live; the caller then looks again
+	tgrow1 := m.AddFunc(nil, i32, nil, c().RefNull(wasmb.FuncRef).I32Const(1).TableGrow(0).B, "tgrow1")
+	if tgrowImp >= 0 {
+		tgrow1 = uint32(tgrowImp)
+	}
+	m.AddFunc(nil, i32, nil, c().Call(tgrow1).I32Const(100).I32Mul().TableSize(0).I32Add().B, "xtab_grow")
+	for k, f := range tgrowOf {
+		m.AddFunc(nil, i32, nil, c().Call(f).I32Const(100).I32Mul().TableSize(0).I32Add().B, fmt.Sprintf("xg%d", k))
+	}
+	if effMut[gI32] && effType[gI32] == wasmb.I32 {
+		bump := m.AddFunc(nil, nil, nil, c().GlobalGet(gidx[gI32]).I32Const(1).I32Add().GlobalSet(gidx[gI32]).B, "bump_g0")
+		if bumpImp >= 0 {
+			bump = uint32(bumpImp)
+		}
+		m.AddFunc(nil, i32, []wasmb.ValType{wasmb.I32}, c().GlobalGet(gidx[gI32]).LocalSet(0).Call(bump).GlobalGet(gidx[gI32]).LocalGet(0).I32Sub().B, "g_across")
 	}
 	m.AddFunc(nil, i32, nil, c().TableSize(0).B, "tab_size")
 	m.AddFunc(i32, i32, nil, c().RefNull(wasmb.FuncRef).LocalGet(0).TableGrow(0).B, "tab_grow")
@@ -578,7 +608,7 @@ func (r *runner) step() {
 		return
 	}
 	in := live[t.Choose(len(live))]
-	k := t.Weighted(5, 3, 3, 4, 3, 2, 2, 2, 2, 2)
+	k := t.Weighted(5, 3, 3, 4, 3, 2, 2, 2, 2, 2, 2, 2, 2)
 	switch k {
 	case 0: // write cell from guest
 		c, v := t.Choose(nCells), int32(1000+t.Choose(100000))
@@ -712,6 +742,63 @@ func (r *runner) step() {
 	case 7, 8: // another instantiation after state changed
 		if len(r.specs) < 6 {
 			r.instantiate(t.Chance(1, 3))
+		}
+	case 10: // a callee (possibly in another instance) grows the shared table; the caller looks at its size
+		res, err := r.call(in, "xtab_grow")
+		r.log("m%d.xtab_grow()", in.idx)
+		if err != nil {
+			r.res.Fail("unexpected-trap", "m%d.xtab_grow failed: %v", in.idx, errLine(err))
+			return
+		}
+		old := len(in.tab.slots)
+		want := int32(old*100 + old + 1)
+		if old+1 > in.tab.max {
+			want = int32(-1*100 + old)
+		} else {
+			in.tab.slots = append(in.tab.slots, fnRef{inst: -1})
+			r.noteWrite(in.tab, in.idx)
+		}
+		if got := int32(uint32(res[0])); got != want {
+			r.res.Fail("view-diverged", "m%d.xtab_grow() (table.grow in the table owner's function, then table.size in the caller) = %d, model expects %d (old size %d)", in.idx, got, want, old)
+		}
+	case 12: // a callee in ANOTHER instance grows ITS table (which may not be ours); we then look at ours
+		if len(in.imps) == 0 {
+			return
+		}
+		k := t.Choose(len(in.imps))
+		other := r.insts[in.imps[k]]
+		res, err := r.call(in, fmt.Sprintf("xg%d", k))
+		r.log("m%d.xg%d() [table.grow inside m%d]", in.idx, k, other.idx)
+		if err != nil {
+			r.res.Fail("unexpected-trap", "m%d.xg%d failed: %v", in.idx, k, errLine(err))
+			return
+		}
+		old := len(other.tab.slots)
+		ret := old
+		if old+1 > other.tab.max {
+			ret = -1
+		} else {
+			other.tab.slots = append(other.tab.slots, fnRef{inst: -1})
+			r.noteWrite(other.tab, in.idx)
+		}
+		want := int32(ret*100 + len(in.tab.slots))
+		if got := int32(uint32(res[0])); got != want {
+			r.res.Fail("view-diverged", "m%d.xg%d(): table.grow executed by m%d's function on its own table returned/left %d, model expects %d (m%d table %d entries, m%d table %d entries)", in.idx, k, other.idx, got, want, other.idx, len(other.tab.slots), in.idx, len(in.tab.slots))
+		}
+	case 11: // a callee bumps the shared mutable global while the caller holds its old value
+		if in.mod.ExportedFunction("g_across") == nil {
+			return
+		}
+		res, err := r.call(in, "g_across")
+		r.log("m%d.g_across()", in.idx)
+		if err != nil {
+			r.res.Fail("unexpected-trap", "m%d.g_across failed: %v", in.idx, errLine(err))
+			return
+		}
+		in.globs[gI32].bits = uint64(uint32(int32(uint32(in.globs[gI32].bits)) + 1))
+		r.noteWrite(in.globs[gI32], in.idx)
+		if got := int32(uint32(res[0])); got != 1 {
+			r.res.Fail("view-diverged", "m%d.g_across(): the global read after the callee incremented it differs from the read before by %d (expected 1): the caller kept a stale copy", in.idx, got)
 		}
 	case 9: // hold a memory base across a callee that grows the (shared) memory
 		c, v := t.Choose(nCells), int32(3000000+t.Choose(100000))
